@@ -673,7 +673,7 @@ def predict(traces, workdir):
         json.dump([{"sid": i + 1, "cfg": t["cfg"]} for i, t in enumerate(traces)], out)
     try:
         rc, out = tlc.run("OrchestraPredict.tla", "OrchestraPredict.cfg", env={"TRACE_FILE": scf},
-                          workers=1, scratch=workdir, heap="3g", timeout=240)
+                          workers=1, scratch=workdir, heap="3g", timeout=150)
     except tlc.TlcFailure:
         # a scenario with a large tie group: its interleavings are too many to enumerate
         return [], 0, 0, [-1] * len(traces)
@@ -745,7 +745,7 @@ def simulate_scenarios(count, seed, workdir, family="nested"):
     with open(famf, "w") as out:
         json.dump(fam, out)
     rc, out = tlc.run("MC_Orch.tla", "MC_Orch_sim.cfg", env={"FAMILY_FILE": famf}, workers=1,
-                      scratch=workdir, timeout=900,
+                      scratch=workdir, timeout=300 if count <= 1000 else 1500,
                       extra=["-simulate", "num=%d" % count, "-depth", "120", "-seed", str(seed + 1)])
     if tlc.violated(out):
         raise tlc.TlcFailure("simulation found the specification violating a property:\n" + out[-3000:])
